@@ -249,9 +249,9 @@ def main(argv=None):
         if tier == "quick" and not (only and ":" in only) and hs:
             cost = lambda h: timings.get(f"{u.name}::{h.name}", 0.0)
             fast = [h for h in hs if cost(h) <= qmax]
-            # nothing cheap enough: keep the cheapest one if it is at most 1.5 x the limit, otherwise the unit's harnesses for this
+            # nothing cheap enough: keep the cheapest one if it is at most 1.25 x the limit, otherwise the unit's harnesses for this
             # property run in the thorough tier only (e.g. the 512-byte RSA flows of v1_pke, 8-10 min each)
-            hs = fast if fast else [h for h in [min(hs, key=cost)] if cost(h) <= 1.5 * qmax]
+            hs = fast if fast else [h for h in [min(hs, key=cost)] if cost(h) <= 1.25 * qmax]
         if only:
             un, _, hre = only.partition(":")
             if u.name != un and u.group != un:
